@@ -89,18 +89,48 @@ func zzC09TrailingStart(b []byte) int {
 	return t
 }
 
-// zzC09KFRegion delimits known finding KF-C09-indent-trailing-ws: prefix or indent contains
-// a character other than space/tab (so v1 formats with placeholder spaces and rewrites the
-// spaces after every newline of its output afterwards), and the whitespace preserved from the
-// end of the input contains a newline directly followed by k >= 1 spaces such that the first k
-// bytes of prefix+indent+indent+... are not all spaces (those spaces get overwritten).
-// hang reports the sub-region where the rewrite loop cannot terminate: indent is empty and
-// k > len(prefix).
-func zzC09KFRegion(b []byte, prefix, indent string) (in, hang bool) {
+// zzC09KFRegion delimits known finding KF-C09-indent-trailing-ws on valid input. It applies
+// when prefix or indent contains a character other than space/tab: v1 then formats with
+// placeholder spaces and afterwards rewrites the run of spaces after EVERY newline of what it
+// appended with prefix+indent+indent+..., and that includes the whitespace preserved from
+// the end of the input, which classic encoding/json copies verbatim. In the region = that
+// whitespace contains a newline directly followed by k >= 1 spaces and the first k bytes of
+// prefix+indent+indent+... are not all spaces. (Checked to be exact, both directions, on the
+// skeletons 1?? [1]??? {"a":1}\n?<sp> 1\n<sp>?? 1???? over Sigma24 for nine prefix/indent pairs.)
+// Callers must have excluded zzC09MayHang.
+func zzC09KFRegion(b []byte, prefix, indent string) (in bool) {
 	if zzC09Blank(prefix) && zzC09Blank(indent) {
-		return false, false
+		return false
 	}
 	for i := zzC09TrailingStart(b); i < len(b); i++ {
+		if b[i] != '\n' {
+			continue
+		}
+		for j := 0; i+1+j < len(b) && b[i+1+j] == ' ' && !in; j++ {
+			c := byte(0)
+			if j < len(prefix) {
+				c = prefix[j]
+			} else {
+				c = indent[(j-len(prefix))%len(indent)]
+			}
+			in = c != ' '
+		}
+	}
+	return in
+}
+
+// zzC09MayHang over-approximates the sub-region of the same finding in which v1.Indent does
+// not return at all: prefix non-blank, indent empty, and a rewritten run has more than
+// len(prefix) spaces (the rewrite loop then copies zero bytes forever). On valid input the
+// rewritten runs are those of the trailing whitespace; on invalid input AppendFormat hands
+// back dst+src, so every newline of the input counts. This predicate does not look at
+// validity (it must be decided before v1.Indent is called): any newline followed by more
+// than len(prefix) spaces.
+func zzC09MayHang(b []byte, prefix, indent string) bool {
+	if indent != "" || zzC09Blank(prefix) {
+		return false
+	}
+	for i := 0; i < len(b); i++ {
 		if b[i] != '\n' {
 			continue
 		}
@@ -108,22 +138,11 @@ func zzC09KFRegion(b []byte, prefix, indent string) (in, hang bool) {
 		for i+1+k < len(b) && b[i+1+k] == ' ' {
 			k++
 		}
-		if k > len(prefix) && indent == "" {
-			return true, true
-		}
-		for j := 0; j < k; j++ {
-			var c byte
-			if j < len(prefix) {
-				c = prefix[j]
-			} else {
-				c = indent[(j-len(prefix))%len(indent)]
-			}
-			if c != ' ' {
-				return true, false
-			}
+		if k > len(prefix) {
+			return true
 		}
 	}
-	return false, false
+	return false
 }
 
 // VerifC09Indent: v1.Indent and the classic Indent succeed or fail together and append
@@ -132,18 +151,18 @@ func zzC09KFRegion(b []byte, prefix, indent string) (in, hang bool) {
 // else they are violations.
 func VerifC09Indent(n, alpha int, tmpl, prefix, indent string) {
 	b := zzC09Input(n, alpha, tmpl)
-	inKF, hang := zzC09KFRegion(b, prefix, indent)
-	// Inside the hang sub-region of the known finding v1.Indent does not return (natively
-	// either); bounded execution cannot report that as a value, so these inputs are cut.
-	vrt.Assume(!hang)
-	if inKF {
-		vrt.Cover("kf-region")
-	}
 	var d1, d2 bytes.Buffer
 	d1.WriteString("#")
 	d2.WriteString("#")
+	// v1.Indent does not return on these inputs (natively either; known finding). Bounded
+	// execution cannot report that as a value, so they are cut.
+	vrt.Assume(!zzC09MayHang(b, prefix, indent))
 	err1 := Indent(&d1, b, prefix, indent)
 	err2 := stdjson.Indent(&d2, b, prefix, indent)
+	inKF := err2 == nil && zzC09KFRegion(b, prefix, indent)
+	if inKF {
+		vrt.Cover("kf-region")
+	}
 	vrt.Observe("err1nil", err1 == nil)
 	vrt.Observe("err2nil", err2 == nil)
 	vrt.Assert("C09/indent/same-success", (err1 == nil) == (err2 == nil))
@@ -158,9 +177,22 @@ func VerifC09Indent(n, alpha int, tmpl, prefix, indent string) {
 }
 
 // VerifC09HTML: v1.HTMLEscape and the classic HTMLEscape append identical bytes for every
-// byte string (neither validates).
+// byte string (neither validates). In a skeleton the letters X, Y, Z, W stand for the bytes
+// 0xE2, 0x80, 0xA8, 0xA9 (U+2028 = E2 80 A8, U+2029 = E2 80 A9).
 func VerifC09HTML(n, alpha int, tmpl string) {
 	b := zzC09Input(n, alpha, tmpl)
+	for i := 0; i < len(tmpl); i++ {
+		switch tmpl[i] {
+		case 'X':
+			b[i] = 0xE2
+		case 'Y':
+			b[i] = 0x80
+		case 'Z':
+			b[i] = 0xA8
+		case 'W':
+			b[i] = 0xA9
+		}
+	}
 	var d1, d2 bytes.Buffer
 	d1.WriteString("#")
 	d2.WriteString("#")
